@@ -12,9 +12,10 @@ import core
 import tk
 
 
-def build(T, first_id=1, order=("f",)):
-    """feature f holds the observation's id, g its negative, h ten times it; created in the given order"""
-    t = tk.mk_track([float(first_id + i) for i in range(len(T))], ts=list(T))
+def build(T, first_id=1, order=("f",), unit=1.0):
+    """feature f holds the observation's id, g its negative, h ten times it; created in the given order.
+    unit: seconds per tick of T (1 s, or 0.25 s: several observations inside the same whole second)"""
+    t = tk.mk_track([float(first_id + i) for i in range(len(T))], ts=[v * unit for v in T])
     if len(T):
         for name in order:
             k = {"f": 1.0, "g": -1.0, "h": 10.0}[name]
@@ -148,28 +149,30 @@ def record_sort_insert(args):
         n = len(T)
         # sortRadix: the bucket sort on the time fields (growth), same acceptance; it allocates 60 000 buckets per call,
         # so it is run on a fixed sixth of the sequences
+        # a third of the sequences tick in quarters of a second: sub-second sampling, the order is decided by the milliseconds
+        unit = 0.25 if (sum(T) + len(T)) % 3 == 1 else 1.0
         for how in (("sort", "sortRadix") if (sum(T) + 5 * len(T)) % 6 == 0 else ("sort",)):
-            src = build(T)
+            src = build(T, unit=unit)
             try:
                 with core.quiet():
                     getattr(src, how)()
                 r = ids(src)
-                rts = [int(round(o.timestamp.toAbsTime() - base)) for o in src.getObsList()]
+                rts = [int(round((o.timestamp.toAbsTime() - base) / unit)) for o in src.getObsList()]
                 rf = [int(round(src.getObsAnalyticalFeature("f", k))) for k in range(n)] if n else []
                 out.append({"id": id0 + len(out), "ev": "sort", "how": how, "T": T, "r": r, "rts": rts, "rf": rf})
             except Exception as e:
                 out.append({"id": id0 + len(out), "ev": "sort", "how": how, "T": T, "r": [], "rts": [], "rf": [], "exc": repr(e)})
         if T == sorted(T):
             for t in times:
-                trk = build(T)
+                trk = build(T, unit=unit)
                 from tracklib.core.obs import Obs
                 from tracklib.core.obs_coords import ENUCoords
-                o = Obs(ENUCoords(0.0, 0.0, 0.0), ObsTime.readUnixTime(base + t))
+                o = Obs(ENUCoords(0.0, 0.0, 0.0), ObsTime.readUnixTime(base + t * unit))
                 try:
                     with core.quiet():
                         trk.insertObs(o)
                     r = ids(trk)
-                    rts = [int(round(ob.timestamp.toAbsTime() - base)) for ob in trk.getObsList()]
+                    rts = [int(round((ob.timestamp.toAbsTime() - base) / unit)) for ob in trk.getObsList()]
                     out.append({"id": id0 + len(out), "ev": "insert", "T": T, "t": t, "r": r, "rts": rts})
                 except Exception as e:
                     out.append({"id": id0 + len(out), "ev": "insert", "T": T, "t": t, "r": [], "rts": [], "exc": repr(e)})
